@@ -68,27 +68,27 @@ PROPS = {
         rule="trees with required options (own/inherited, with/without custom message) and help option/command at every level; non-trivial = a required option was missing or help was requested",
     ),
     "C13": dict(
-        runs=[dag_run("dag", 3000, 60000, ["-maxn", "6"]), dag_run("history", 1500, 30000, ["-maxn", "6"])],
+        runs=[dag_run("dag", 3000, 150000, ["-maxn", "6"]), dag_run("history", 1500, 75000, ["-maxn", "6"]), dag_run("exh", 1200, 12560)],
         coq_sample=12,
-        rule="random acyclic graphs of 1-6 vertices x outcome tables {nil, error, ErrorSkipParents, fail-then-succeed with retries} x parallel / SetMaxParallel 1-3 / serial x cancellation points; the harness releases one running task at a time (smallest id) and waits for quiescence, so the completion order is the one it chose; every observed trace must be accepted by the transition system (each Enter/Exit is an enabled transition, every quiescent point is maximal, Run's result is the model's); non-trivial = the graph has an edge and a task ran",
+        rule="exhaustive profile (thorough tier: all 12560 combinations; quick tier: a slice of 1200 chosen by the seed): every dependency shape on 1-3 vertices x every outcome assignment {nil, error, ErrorSkipParents, fail-then-succeed with one retry} x {parallel, limit 1, limit 2, serial} x every order in which running tasks are made to finish; plus random acyclic graphs of 1-6 vertices x outcome tables {nil, error, ErrorSkipParents, fail-then-succeed with retries} x parallel / SetMaxParallel 1-3 / serial x cancellation points; the harness releases one running task at a time (smallest id) and waits for quiescence, so the completion order is the one it chose; every observed trace must be accepted by the transition system (each Enter/Exit is an enabled transition, every quiescent point is maximal, Run's result is the model's); non-trivial = the graph has an edge and a task ran",
         assumptions=["memory visibility between a dependency and its dependents is the Go memory model's (channel receive / go statement), not modelled: the theorems give the synchronisation order (completion received before the dependent's thread is created)",
                      "quiescence is detected by a grace period; a 'ready task not started' verdict is only reported when it persists"],
     ),
     "C14": dict(
-        runs=[dag_run("dag", 3000, 60000, ["-maxn", "6"]), dag_run("history", 1500, 30000, ["-maxn", "5"])],
+        runs=[dag_run("dag", 3000, 150000, ["-maxn", "6"]), dag_run("history", 1500, 75000, ["-maxn", "5"]), dag_run("exh", 1200, 12560)],
         coq_sample=12,
         rule="as C13; non-trivial = some outcome is not nil or the context is cancelled, and the graph has an edge; the entries of the returned *Errors value (task error / skipped / cancellation) are compared as a multiset with the model's",
     ),
     "C15": dict(
-        runs=[dag_run("dag", 3000, 60000, ["-maxn", "6", "-pairs", "600"]), dag_run("history", 1000, 20000, ["-maxn", "6", "-pairs", "200"])],
+        runs=[dag_run("dag", 3000, 150000, ["-maxn", "6", "-pairs", "600"]), dag_run("history", 1000, 50000, ["-maxn", "6", "-pairs", "200"]), dag_run("exh", 1200, 12560)],
         coq_sample=12,
         rule="as C13 with limits 1-3 and serial mode; plus pairs of concurrently running graphs sharing Task objects (per-graph peak and per-Task concurrent executions counted inside the task functions); buffered output checked to arrive as one block per attempt; non-trivial = a limit or serial mode is set and at least two tasks ran",
         assumptions=["'at no instant' is interleaving semantics over Enter/Exit events observed inside the task functions"],
     ),
     "C16": dict(
-        runs=[dag_run("history", 2500, 50000, ["-maxn", "6"]), dag_run("cycle", 1500, 30000, ["-maxn", "6"]), dag_run("dag", 1000, 20000, ["-maxn", "7"])],
+        runs=[dag_run("history", 2500, 125000, ["-maxn", "6"]), dag_run("cycle", 1500, 75000, ["-maxn", "6"]), dag_run("dag", 1000, 50000, ["-maxn", "7"]), dag_run("exh", 1200, 12560)],
         coq_sample=12,
-        rule="construction histories with re-added tasks (same and fresh Task objects), duplicate and self edges, nil tasks, missing ids and functions, retries before/after edges, and closed cycles; Graph.String() must equal the model's dot text, DepthFirstSort must be a valid order exactly when the model finds no cycle, Run must return (bounded wait) and every quiescent point must be maximal; non-trivial = a task is re-added, a cycle exists, or the graph has >= 2 edges",
+        rule="construction histories with re-added tasks (same and fresh Task objects), arguments given as Task values or as g.Task(id) lookups (known and unknown ids), duplicate and self edges, nil tasks, missing ids and functions, retries (negative, zero, positive) before/after edges, and closed cycles; an exhaustive slice of all 1-3 vertex graphs x outcomes x modes x completion orders; Graph.String() must equal the model's dot text, DepthFirstSort must be a valid order exactly when the model finds no cycle, Run must return (bounded wait) and every quiescent point must be maximal; non-trivial = a task is re-added, a cycle exists, or the graph has >= 2 edges",
         assumptions=["fairness: task functions return and other graphs release Task locks (the model's environment transitions); under it C16_progress + C16_termination give 'Run returns'"],
     ),
     "C17": dict(
@@ -111,7 +111,7 @@ PROPS = {
     ),
     "C19": dict(
         runs=[parse_run("soup", "10000000", 3000, 300000), dispatch_run("dispatch", "10000000", "000000", 2000, 100000),
-              build_run(2000, 100000), tok_run(30000, 1000000)],
+              build_run(2000, 100000), tok_run(30000, 1000000), complete_run(2500, 100000)],
         coq_sample=10,
         rule="byte soup / weird tokens / 20 kB tokens / 3000-token argv on random definitions, each call under recover() and a 10 s deadline; invalid definitions must panic at definition time exactly when the builder model rejects them; non-trivial = a non-ASCII or control byte is present or argv has >= 50 tokens",
         assumptions=["panics or super-linear behaviour inside Go's regexp/strconv/fmt/sort are outside the model: that part is search (recover + deadline), labelled as such"],
